@@ -28,26 +28,26 @@ def select_quick(specs, budget_s):
     for s in cands:
         if str(s.get("expect", "")).startswith("finding") or s.get("priority"):
             chosen.append(s)
-            total += s.get("measured_s", 30)
+            total += (s.get("measured_s") or 30)
     reps = []
     for f, lst in sorted(fams.items()):
-        lst = sorted(lst, key=lambda s: s.get("measured_s", 30))
-        ok = [s for s in lst if s.get("measured_s", 30) <= 70] or lst[:1]
+        lst = sorted(lst, key=lambda s: (s.get("measured_s") or 30))
+        ok = [s for s in lst if (s.get("measured_s") or 30) <= 70] or lst[:1]
         reps.append(ok[-1])      # the largest instance that is still cheap
-    for s in sorted(reps, key=lambda s: s.get("measured_s", 30)):
+    for s in sorted(reps, key=lambda s: (s.get("measured_s") or 30)):
         if s in chosen:
             continue
-        if total + s.get("measured_s", 30) > budget_s:
+        if total + (s.get("measured_s") or 30) > budget_s:
             continue
         chosen.append(s)
-        total += s.get("measured_s", 30)
-    for s in sorted(cands, key=lambda s: s.get("measured_s", 30)):
+        total += (s.get("measured_s") or 30)
+    for s in sorted(cands, key=lambda s: (s.get("measured_s") or 30)):
         if s in chosen:
             continue
-        if total + s.get("measured_s", 30) > budget_s:
+        if total + (s.get("measured_s") or 30) > budget_s:
             break
         chosen.append(s)
-        total += s.get("measured_s", 30)
+        total += (s.get("measured_s") or 30)
     # a property whose quick-tier harnesses are few still gets its cheapest thorough harnesses within the budget
     for s in sorted([s for s in specs if s.get("tier") == "thorough"], key=lambda s: s.get("measured_s") or 600):
         if total + (s.get("measured_s") or 600) > budget_s:
@@ -66,7 +66,7 @@ def run_spec(rep, pid, tier, budget_s=450, parallel=5, only=None):
     sel = specs if tier == "thorough" else select_quick(specs, budget_s)
     jobs = []
     for s in sel:
-        m = s.get("measured_s", 60)
+        m = s.get("measured_s") or 60
         jobs.append(dict(harness=s["harness"], where=s.get("where", "ext"),
                          timeout=int(max(s.get("timeout", 600), 4 * m + 240)), mem_gb=max(s.get("mem_gb", 8), 8) + 4,
                          what=s.get("what", "")[:300], extra=s.get("extra"),
